@@ -1,2 +1,3 @@
 pub mod filter;
 pub mod retryopts;
+pub mod stepmatch;
